@@ -66,9 +66,8 @@ def run(ck):
             elif k_[0] == 'truth' and (k_[1] in ('molecule_lengths', 'selected_molecules') or 'molecule_selector(' in k_[1]):       # (the condition is read with locals substituted)
                 names_[k_] = 'SEL'
         okr = len(names_) == len(flow.atoms_of(raises_[0][1])) and flow.equivalent(flow.rename(raises_[0][1], names_), flow.parse_formula('SEQ and not SEL'))[0]
-    early = [r_ for r_ in walk_local(rs) if isinstance(r_, ast.Return) and r_ is not rs.body[-1]]
-    ck.ob('DT-mismatch', mod.loc(rs), okr and not early, 'run_system raises "no molecule to which to apply the sequence" exactly when the sequence is non-empty and no molecule is '
-          'selected, and has no earlier exit ({} early return(s))'.format(len(early)), key='DT-mismatch|empty-selection')
+    ck.ob('DT-mismatch', mod.loc(rs), okr, 'run_system raises "no molecule to which to apply the sequence" exactly when the sequence is non-empty and no molecule is '
+          'selected (the reaching condition of the raise, earlier exits included, is `sequence and not selection`)', key='DT-mismatch|empty-selection')
     # ---- SIB-zip: package-wide sweep (cheap), anchored instance must exist
     total = 0
     anchored = 0
